@@ -6,7 +6,7 @@ from pyvc.engine import Engine
 
 META = _pipeline.meta('C18')
 
-DEDUCTIVE = ['vsg.rule_list.rule_list.fix', 'vsg.vhdlFile.vhdlFile.vhdlFile.update_token_map', 'vsg.vhdlFile.vhdlFile.vhdlFile.fix_blank_lines', 'vsg.vhdlFile.vhdlFile.vhdlFile.fix_trailing_whitespace', 'vsg.vhdlFile.extract.utils.get_indexes_of_token_list', 'vsg.vhdlFile.extract.get_tokens_matching.get_tokens_matching', 'vsg.vhdlFile.extract.get_tokens_at_beginning_of_line_matching.get_tokens_at_beginning_of_line_matching', 'vsg.vhdlFile.extract.get_sequence_of_tokens_matching.get_token_indexes', 'vsg.vhdlFile.extract.get_sequence_of_tokens_matching.get_sequence_of_tokens_matching', 'vsg.vhdlFile.vhdlFile.vhdlFile.update', 'vsg.vhdlFile.vhdlFile.remove_beginning_of_file_tokens', 'vsg.vhdlFile.extract.tokens.calculate_end_index', 'vsg.vhdlFile.extract.tokens.New.extract_tokens', 'vsg.rules.token_case.token_case._fix_violation']
+DEDUCTIVE = ['vsg.vhdlFile.extract.get_tokens_bounded_by.get_tokens_bounded_by', 'vsg.rule_list.rule_list.fix', 'vsg.vhdlFile.vhdlFile.vhdlFile.update_token_map', 'vsg.vhdlFile.vhdlFile.vhdlFile.fix_blank_lines', 'vsg.vhdlFile.vhdlFile.vhdlFile.fix_trailing_whitespace', 'vsg.vhdlFile.extract.utils.get_indexes_of_token_list', 'vsg.vhdlFile.extract.get_tokens_matching.get_tokens_matching', 'vsg.vhdlFile.extract.get_tokens_at_beginning_of_line_matching.get_tokens_at_beginning_of_line_matching', 'vsg.vhdlFile.extract.get_sequence_of_tokens_matching.get_token_indexes', 'vsg.vhdlFile.extract.get_sequence_of_tokens_matching.get_sequence_of_tokens_matching', 'vsg.vhdlFile.vhdlFile.vhdlFile.update', 'vsg.vhdlFile.vhdlFile.remove_beginning_of_file_tokens', 'vsg.vhdlFile.extract.tokens.calculate_end_index', 'vsg.vhdlFile.extract.tokens.New.extract_tokens', 'vsg.rules.token_case.token_case._fix_violation']
 
 
 def run():
